@@ -16,13 +16,15 @@ ID = "C12"
 CASES = {"quick": 4000, "thorough": 50000}
 FLOOR = {"quick": 3500, "thorough": 45000}
 FLOOR_COUNTERS = {
-    "quick": {"tiny_magnitude_kernels": 250, "normalizer_fits": 1800, "sparse_fits": 1800, "test_kernels_judged": 3500, "weighted_fits": 2000},
-    "thorough": {"tiny_magnitude_kernels": 3000, "normalizer_fits": 22000, "sparse_fits": 22000, "test_kernels_judged": 45000, "weighted_fits": 25000},
+    "quick": {"tiny_magnitude_kernels": 250, "normalizer_fits": 1800, "sparse_fits": 1800, "test_kernels_judged": 3500, "weighted_fits": 2000, "estimators_with_a_past": 2500, "fewer_samples_than_active_points": 200},
+    "thorough": {"tiny_magnitude_kernels": 3000, "normalizer_fits": 22000, "sparse_fits": 22000, "test_kernels_judged": 45000, "weighted_fits": 25000, "estimators_with_a_past": 30000, "fewer_samples_than_active_points": 2500},
 }
 RULE = (
     "case = explicit features F (n 2-30, f 1-8, offset so that centring matters), test features (1-40 rows), weights "
     "None/uniform/random/integer, the 4 with_center/with_trace combinations; even indices judge KernelNormalizer, odd indices "
-    "SparseKernelCenterer with an active set of any size (training rows or arbitrary points). non-trivial = weighted or "
+    "SparseKernelCenterer with an active set of any size (training rows or arbitrary points; 15%: fewer training samples than "
+    "independent active points); 40% of the estimators have a past (weighted fit on another kernel of the same size, other flags, "
+    "then set_params). non-trivial = weighted or "
     "test size != n; distinct by data+config hash."
 )
 ASSUMPTIONS = [
@@ -44,7 +46,15 @@ def gen(rng, tier, index):
         F, Ft, off = F * u, Ft * u, off * u
     wk = gens.pick(rng, ("none", "uniform", "random", "integer"))
     M = int(rng.integers(1, max(2, min(n, 12)) + 1))
-    if rng.random() < 0.5:
+    few = rng.random() < 0.15  # fewer training samples than (independent) active points
+    if few:
+        n = int(rng.integers(2, 7))
+        f = int(rng.integers(n + 1, n + 9))
+        off = rng.normal(size=f) * float(gens.pick(rng, (0.0, 1.0, 10.0)))
+        F = rng.normal(size=(n, f)) * 10.0 ** rng.uniform(-1, 1, size=f) + off
+        Ft = rng.normal(size=(nt, f)) * 10.0 ** rng.uniform(-1, 1, size=f) + off
+        M = int(rng.integers(n + 1, n + 10))
+    if rng.random() < 0.5 and not few:
         Fa = F[rng.permutation(n)[: min(M, n)]].copy()
     else:
         Fa = rng.normal(size=(M, f)) * float(np.abs(F - off).std() or 1.0) + off
@@ -57,11 +67,41 @@ def gen(rng, tier, index):
         "with_center": bool((index // 2) % 2),
         "with_trace": bool((index // 4) % 2),
         "sparse": bool(index % 2),
+        "few": bool(few),
+        "past": bool(rng.random() < 0.4),  # the estimator has been fitted before (other kernel, weights, flags)
+        "pseed": int(rng.integers(1 << 30)),
     }
 
 
 def _norm_w(w, n):
     return np.full(n, 1.0 / n) if w is None else np.asarray(w, float) / np.sum(w)
+
+
+def _with_a_past(j, case, cls, n, m, label=""):
+    """An estimator that was fitted before on another kernel of the same size (weighted, other flags) and then
+    re-configured with set_params; only the arguments of the coming fit may matter afterwards."""
+    wc, wt = case["with_center"], case["with_trace"]
+    if not case.get("past"):
+        return cls(with_center=wc, with_trace=wt)
+    pr = np.random.default_rng(case["pseed"] + len(label))
+    est = cls(with_center=bool(pr.random() < 0.7), with_trace=bool(pr.random() < 0.7))
+    f0 = int(pr.integers(max(2, m), m + 6))
+    n0 = n if pr.random() < 0.8 else int(pr.integers(2, 20))
+    F0 = pr.normal(size=(n0, f0)) * 10.0 ** pr.uniform(-2, 2) + pr.normal(size=f0)
+    w0 = pr.uniform(0.05, 3.0, size=n0) if pr.random() < 0.8 else None
+    if cls.__name__ == "KernelNormalizer":
+        j.lib("fit:decoy" + label, est.fit, F0 @ F0.T, sample_weight=w0)
+        j.lib("transform:decoy" + label, est.transform, F0[: max(1, n0 // 2)] @ F0.T)
+    else:
+        A0 = pr.normal(size=(m, f0)) * float(np.abs(F0).std()) + F0.mean(axis=0)
+        j.lib("fit:decoy" + label, est.fit, F0 @ A0.T, A0 @ A0.T, sample_weight=w0)
+        j.lib("transform:decoy" + label, est.transform, F0[: max(1, n0 // 2)] @ A0.T)
+    if hasattr(est, "set_params"):
+        j.lib("set_params", est.set_params, with_center=wc, with_trace=wt)
+    else:  # SparseKernelCenterer is a plain TransformerMixin: its parameters are public attributes
+        est.with_center, est.with_trace = wc, wt
+    j.note("estimators_with_a_past")
+    return est
 
 
 def _run_normalizer(case, j):
@@ -79,7 +119,7 @@ def _run_normalizer(case, j):
     if wt and tr <= 1e-9 * mag:
         raise Skip("centred-trace-vanishes")
     s = tr if wt else 1.0
-    est = KernelNormalizer(with_center=wc, with_trace=wt)
+    est = _with_a_past(j, case, KernelNormalizer, n, n)
     sw = None if w is None else w.copy()
     j.lib("fit", est.fit, K.copy(), sample_weight=sw)
     j.note("normalizer_fits")
@@ -97,7 +137,7 @@ def _run_normalizer(case, j):
         j.close("centring off: transform only divides by the scale", Tk, K / s, tol)
     if not wt:
         j.ok("trace scaling off: scale_ == 1", est.scale_ == 1.0, est.scale_)
-    est2 = KernelNormalizer(with_center=wc, with_trace=wt)
+    est2 = _with_a_past(j, case, KernelNormalizer, n, n, "2")
     T2 = est2.fit_transform(K.copy(), sample_weight=None if w is None else w.copy())
     j.close("fit_transform == fit followed by transform", T2, Tk, 1e-12 * mag / s)
     return {"scale_": float(est.scale_), "trace_after": float(np.trace(Tk))}
@@ -122,7 +162,7 @@ def _run_sparse(case, j):
     if wt and tr <= 1e-9 * max(float(np.trace(Knm @ Pm @ Knm.T)) / n, 1e-300):
         raise Skip("centred-nystrom-trace-vanishes")
     s = np.sqrt(tr) if wt else 1.0
-    est = SparseKernelCenterer(with_center=wc, with_trace=wt)
+    est = _with_a_past(j, case, SparseKernelCenterer, n, len(Fa))
     j.lib("fit", est.fit, Knm.copy(), Kmm.copy(), sample_weight=None if w is None else w.copy())
     j.note("sparse_fits")
     T = np.asarray(est.transform(Knm.copy()))
@@ -139,7 +179,7 @@ def _run_sparse(case, j):
         j.close("centring off: only divided by the scale", T, Knm / s, tol)
     if not wt:
         j.ok("trace scaling off: scale_ == 1", est.scale_ == 1.0, est.scale_)
-    est2 = SparseKernelCenterer(with_center=wc, with_trace=wt)
+    est2 = _with_a_past(j, case, SparseKernelCenterer, n, len(Fa), "2")
     T2 = est2.fit_transform(Knm.copy(), Kmm.copy(), sample_weight=None if w is None else w.copy())
     j.close("fit_transform == fit followed by transform", T2, T, 1e-12 * mag / s)
     return {"scale_": float(est.scale_), "n_active": int(len(Fa))}
@@ -148,6 +188,8 @@ def _run_sparse(case, j):
 def run(case, j):
     if float(np.abs(case["F"]).max()) < 1e-4:
         j.note("tiny_magnitude_kernels")
+    if case.get("few") and case["sparse"]:
+        j.note("fewer_samples_than_active_points")
     j.tag("sparse" if case["sparse"] else "normalizer", f"center={case['with_center']},trace={case['with_trace']}", f"weights:{case['wkind']}")
     if case["w"] is not None:
         j.note("weighted_fits")
